@@ -3,6 +3,8 @@
 package cl
 
 import (
+	"strconv"
+
 	"github.com/ohler55/ojg/sen"
 	"github.com/ohler55/slip"
 )
@@ -42,8 +44,33 @@ type Sxhash struct {
 func (f *Sxhash) Call(s *slip.Scope, args slip.List, depth int) (result slip.Object) {
 	slip.CheckArgCount(s, depth, f, args, 1, 1)
 	var h uint64
-	for _, b := range sen.Bytes(slip.SimpleObject(args[0])) {
+	for _, b := range appendHashBytes(nil, args[0]) {
 		h += uint64(0xdf & b) // mask 0x20 to ignore ascii case, for others it doesn't matter
 	}
 	return slip.Fixnum(h & 0x7fffffffffffffff)
+}
+
+// appendHashBytes appends the bytes the hash code of obj is formed from. Numbers
+// that are equal must contribute the same bytes whatever their type (5, 5.0,
+// and a bignum or ratio with the value 5 are equal) so a real number
+// contributes the float64 nearest to its value instead of its printed
+// representation, also when it is an element of a list or vector.
+func appendHashBytes(b []byte, obj slip.Object) []byte {
+	switch to := obj.(type) {
+	case slip.Real:
+		return strconv.AppendFloat(b, to.RealValue(), 'g', -1, 64)
+	case slip.List:
+		b = append(b, '[')
+		for _, e := range to {
+			b = append(appendHashBytes(b, e), ' ')
+		}
+		return append(b, ']')
+	case slip.VectorLike:
+		b = append(b, '[')
+		for _, e := range to.AsList() {
+			b = append(appendHashBytes(b, e), ' ')
+		}
+		return append(b, ']')
+	}
+	return append(b, sen.Bytes(slip.SimpleObject(obj))...)
 }
